@@ -144,3 +144,34 @@ contract('drivers.c15:unlocked_mute', 'C15', dict(clf=Obj(C + 'ContactlessFronte
                                                            device=Obj('models.clf_models:DeviceModel', _partial=False,
                                                                       lock=Ref('clf.lock'), closed=False), target=None)),
          name='C15/sentinel.unlocked-call', expect_fail=True, raises={})
+
+
+# The lock argument above ("one lock is held at every driver call, so driver calls of different threads do not
+# overlap") also needs the driver side: a driver method runs in its caller's thread and starts none of its own -
+# a thread (or timer) started by the driver would talk to the device without the frontend's lock, or after close().
+# Obligation `starts-no-thread` on the driver methods the frontend calls for LED/buzzer, mute and close (chipset
+# calls abstracted: any method of the chipset object returns or raises IOError), and - same obligation - on the
+# data exchange paths of the pn53x and rcs380 drivers that C13 has under contract.
+for _mod, _cls, _meths in (('nfc.clf.acr122', 'Device', ('turn_on_led_and_buzzer', 'turn_off_led_and_buzzer')),
+                           ('nfc.clf.device', 'Device', ('turn_on_led_and_buzzer', 'turn_off_led_and_buzzer')),
+                           ('nfc.clf.pn53x', 'Device', ('mute', 'close')),
+                           ('nfc.clf.rcs380', 'Device', ('mute', 'close')),
+                           ('nfc.clf.rcs956', 'Device', ('mute', 'close')),
+                           ('nfc.clf.acr122', 'Device', ('mute', 'close'))):
+    for _m in _meths:
+        contract('%s:%s.%s' % (_mod, _cls, _m), 'C15',
+                 dict(self=Obj('%s:%s' % (_mod, _cls),
+                               chipset=Obj('models.clf_models:AnyChipset', _partial=False))),
+                 name='C15/driver.%s.%s' % (_mod.split('.')[-1], _m), hooks={'no_threads': True},
+                 ensures=[('post.none', 'result is None')], raises={'IOError': []})
+import copy as _copy
+from . import c13_drivers as _c13   # noqa
+from pyvc.contracts import REGISTRY as _REG
+for _c in list(_REG):
+    if _c.prop == 'C13' and not _c.assumed and not _c.expect_fail and (
+            _c.name.startswith('C13/pn532.send_') or _c.name.startswith('C13/rcs380.send_')):
+        _c2 = _copy.copy(_c)
+        _c2.prop = 'C15'
+        _c2.name = 'C15/driver.' + _c.name.split('/', 1)[1]
+        _c2.hooks = dict(_c.hooks, no_threads=True)
+        _REG.append(_c2)
